@@ -20,6 +20,11 @@ Proof.
     reflexivity.
 Qed.
 
+Lemma even_mod2 len : Z.even len = (len mod 2 =? 0).
+Proof.
+  rewrite Zmod_even. destruct (Z.even len); reflexivity.
+Qed.
+
 Definition pair_body (st i : Z) : list letter :=
   [LP (2 * i - st); LU true; LP (2 * i + 1 - st); LU false].
 
